@@ -86,9 +86,13 @@ def discharge(ob: Obligation, timeout_ms: int, use_cvc5=False):
             rr = ("unknown", f"ratnf error {type(e).__name__}: {e}")
         if rr[0] == "proved":
             res["status"], res["solver"] = "proved", "ratnf+z3"
-        elif rr[0] == "refuted":
+        elif rr[0] == "refuted" and _model_refutes(rr[2], ob):
             res["status"], res["solver"] = "refuted", "ratnf+z3"
             res["model"], res["model_obj"] = rr[1], rr[2]
+        elif rr[0] == "refuted":
+            # the sampled model does not falsify the ORIGINAL obligation: never a verdict
+            rr = ("unknown", "sampled counter-model of the rewritten identity does not falsify the original obligation")
+            res["reason"] = f"z3: {res['reason']}; ratnf: {rr[1]}"
         else:
             res["reason"] = f"z3: {res['reason']}; ratnf: {rr[1]}"
             s.set("timeout", timeout_ms)
@@ -114,6 +118,22 @@ def discharge(ob: Obligation, timeout_ms: int, use_cvc5=False):
             res["status"] = "solver-disagreement"
     res["time_s"] = time.time() - t0
     return res
+
+
+def _model_refutes(m, ob):
+    """guard for the sampling back end: the model must make every (quantifier-free) premise true and the
+    original claim false when evaluated with model completion"""
+    try:
+        if not z3.is_false(m.eval(ob.claim, model_completion=True)):
+            return False
+        for p in ob.premises:
+            if z3.is_quantifier(p):
+                continue
+            if not z3.is_true(m.eval(p, model_completion=True)):
+                return False
+        return True
+    except Exception:
+        return False
 
 
 def _sat_without_definitions(ob, extra, timeout_ms):
